@@ -86,6 +86,14 @@ func main() {
 	cfg := tables.StdCfg()
 	g := &tables.Gen{U: tables.StdUniverse(), Rng: rng, Discipline: true}
 	rtBatch(r, rng)
+	// op pairs on one MAC in every order (SetDHCPv4IPOffer x DHCPv4Update x frame x purge), client online / offline / unknown
+	for i := 0; i < 432; i += 1 + rng.Intn(2) {
+		ops := g.OfferPairHistory(i)
+		r.Do("t6", append([]string{cfg.Tok(), "0"}, ops...)...)
+		ips6, _ := tables.Candidates(cfg, ops)
+		r.Do("t6c", append([]string{cfg.Tok(), "0", tables.IPsTok(ips6)}, ops...)...)
+		r.Stat("class.offer-pairs", 1)
+	}
 	// the address-class domain and the NICInfo domain: every class of IPv4 / IPv6 source x {router, own, client, new MAC} x
 	// {IP frame, ARP / NDP}, under the standard configuration and under every NICInfo variant
 	{
